@@ -527,3 +527,127 @@ def r08_4(ctx, repo):
             ctx.error(rule, '%s: count expression not evaluated (%s)' % (
                 construct, [v[1] for v in verdicts if v[0] == 'error'][0]))
     ctx.floor(rule, 6)
+
+
+# -----------------------------------------------------------------------------
+# R08.6 — re-indexing of positions under the mask
+# -----------------------------------------------------------------------------
+def r08_6(ctx, repo):
+    """A position i of the wrapped model's parameter vector becomes
+    i - popcount(mask[:i]) in the reduced vector (its rank among the free
+    parameters).  ReducedPopulationModel.get_special_dims re-indexes the
+    (start, end) parameter ranges of pooled / heterogeneous dimensions this
+    way; the record is [dim start, dim end, start', end', pooled?]."""
+    import sympy as sp
+    rule = 'R08.6'
+    cls = 'ReducedPopulationModel'
+    fn = repo.method(cls, 'get_special_dims')
+    construct = cls + '.get_special_dims'
+    Pc = sp.Function('popcount_before')
+    TOTAL = sp.Symbol('TOTAL')
+    loops = [l for l in ast.walk(fn) if isinstance(l, ast.For)]
+    n = 0
+    for loop in loops:
+        if isinstance(loop.target, ast.Name):
+            elem, fields = loop.target.id, None
+        elif isinstance(loop.target, ast.Tuple) and all(
+                isinstance(x, ast.Name) for x in loop.target.elts):
+            elem, fields = None, [x.id for x in loop.target.elts]
+        else:
+            continue
+        env = {}
+        if fields:
+            for k, nm in enumerate(fields):
+                env[nm] = sp.Symbol('s%d' % k)
+
+        def ev(e):
+            if isinstance(e, ast.Constant) and isinstance(e.value, int):
+                return sp.Integer(e.value)
+            if isinstance(e, ast.Name):
+                return env.get(e.id)
+            if isinstance(e, ast.Subscript) and isinstance(
+                    e.value, ast.Name) and e.value.id == elem \
+                    and isinstance(e.slice, ast.Constant):
+                return sp.Symbol('s%d' % e.slice.value)
+            if isinstance(e, ast.Call) and U(e.func) in ('int', 'np.int64'):
+                return ev(e.args[0]) if e.args else None
+            if isinstance(e, ast.Call) and U(e.func) in (
+                    'np.sum', 'np.count_nonzero', 'sum') and e.args:
+                a = e.args[0]
+                if isinstance(a, ast.Subscript) and U(a.value) == MASK \
+                        and isinstance(a.slice, ast.Slice):
+                    lo = ev(a.slice.lower) if a.slice.lower is not None \
+                        else sp.Integer(0)
+                    hi = ev(a.slice.upper) if a.slice.upper is not None \
+                        else TOTAL
+                    if lo is None or hi is None:
+                        return None
+                    return Pc(hi) - (Pc(lo) if lo != 0 else 0)
+                return None
+            if isinstance(e, ast.BinOp) and isinstance(
+                    e.op, (ast.Add, ast.Sub)):
+                a, b = ev(e.left), ev(e.right)
+                if a is None or b is None:
+                    return None
+                return a + b if isinstance(e.op, ast.Add) else a - b
+            return None
+        record = None
+        for s in loop.body:
+            five = [x for x in ast.walk(s) if isinstance(x, ast.List)
+                    and len(x.elts) == 5]
+            if five:
+                record = (five[0], [ev(y) for y in five[0].elts])
+                continue
+            if isinstance(s, ast.Assign) and len(s.targets) == 1 and \
+                    isinstance(s.targets[0], ast.Name):
+                env[s.targets[0].id] = ev(s.value)
+            elif isinstance(s, ast.Assign) and isinstance(
+                    s.targets[0], ast.Tuple) and isinstance(
+                    s.value, ast.Tuple):
+                vals = [ev(x) for x in s.value.elts]
+                for t, v in zip(s.targets[0].elts, vals):
+                    if isinstance(t, ast.Name):
+                        env[t.id] = v
+            elif isinstance(s, ast.Assign) and isinstance(
+                    s.targets[0], ast.Tuple) and isinstance(
+                    s.value, ast.Name) and s.value.id == elem:
+                for k, t in enumerate(s.targets[0].elts):
+                    if isinstance(t, ast.Name):
+                        env[t.id] = sp.Symbol('s%d' % k)
+            elif isinstance(s, ast.AugAssign) and isinstance(
+                    s.target, ast.Name) and isinstance(
+                    s.op, (ast.Add, ast.Sub)):
+                cur, d = env.get(s.target.id), ev(s.value)
+                env[s.target.id] = None if cur is None or d is None else (
+                    cur + d if isinstance(s.op, ast.Add) else cur - d)
+            else:
+                for x in ast.walk(s):
+                    if isinstance(x, ast.List) and len(x.elts) == 5:
+                        record = (x, [ev(y) for y in x.elts])
+        if record is None:
+            continue
+        n += 1
+        node, vals = record
+        where = repo.loc(node, cls, fn.name)
+        s2, s3 = sp.Symbol('s2'), sp.Symbol('s3')
+        for k, (got, base, what) in enumerate((
+                (vals[2], s2, 'start'), (vals[3], s3, 'end'))):
+            want = base - Pc(base)
+            if got is None:
+                ctx.error(rule, '%s: re-indexed %s of the parameter range '
+                          'not evaluated' % (construct, what))
+            elif sp.expand(got - want) == 0:
+                ctx.ok(rule, where, construct,
+                       'parameter range %s is shifted by the number of '
+                       'fixed parameters before it' % what)
+            else:
+                ctx.violation(
+                    rule, where, construct, 'reindex ' + what,
+                    'the %s of the parameter range of a special dimension '
+                    'becomes `%s`; its position among the free parameters '
+                    'is `%s` (index minus the number of fixed parameters '
+                    'before it): with a parameter fixed in front of or '
+                    'inside the range the reported range is wrong' % (
+                        what, got, want))
+    if n < 1:
+        ctx.error(rule, '%s: re-indexing loop not found' % construct)
